@@ -51,7 +51,14 @@ let rec int_of_nat = function O -> 0 | S k -> 1 + int_of_nat k
 
 let atom = function A s -> s | L _ as x -> bad "atom expected: %s" (show_sx x)
 let int_sx x = try int_of_string (atom x) with Failure _ -> bad "int expected: %s" (show_sx x)
-let n_sx x = n_of_int (int_sx x)
+(* numbers beyond OCaml's int (u64 counters near 2^64, BigUint sums): decimal digits folded with the model's own N arithmetic *)
+let n_of_decimal (str : string) : n =
+  String.fold_left (fun acc c ->
+    if c < '0' || c > '9' then bad "decimal expected: %s" str
+    else n_add (n_mul acc (n_of_int 10)) (n_of_int (Char.code c - 48))) N0 str
+let n_sx x = (match x with
+  | A str when String.length str > 17 -> n_of_decimal str
+  | _ -> n_of_int (int_sx x))
 let bool_sx x = match atom x with "true" -> true | "false" -> false | s -> bad "bool: %s" s
 
 let tagged tag = function
@@ -84,7 +91,8 @@ let dot_sx x = { dactor = n_sx (field "actor" x); dcounter = n_sx (field "counte
 let nlist_sx x = List.map n_sx (seq x)
 let nset_sx x = nset_of_list (nlist_sx x)
 
-let show_n x = string_of_int (int_of_n x)
+let rec pos_bits_ = function XH -> 1 | XO p | XI p -> 1 + pos_bits_ p
+let show_n x = (match x with Npos p when pos_bits_ p > 61 -> "<" ^ string_of_int (pos_bits_ p) ^ "-bit number>" | _ -> string_of_int (int_of_n x))
 let show_vc c =
   let l = List.sort compare (List.map (fun (a, b) -> (int_of_n a, int_of_n b)) (vc_to_list c)) in
   "{" ^ String.concat "," (List.map (fun (a, b) -> Printf.sprintf "%d:%d" a b) l) ^ "}"
@@ -372,6 +380,14 @@ let check_call (f : string) (a : sx list) : string option =
   (* ---- counters *)
   | "gcounter", "inc_many", [c; x; st; d] -> cmp (=) show_dot (gc_inc_many (vc_sx c) (n_sx x) (n_sx st)) (dot_sx d)
   | "gcounter", "read", [c; r] -> cmp (=) show_n (gc_read (vc_sx c)) (n_sx r)
+  | "gcounter", "bigread", [c; r] -> cmp (=) show_n (gc_read (vc_sx c)) (n_sx r)
+  | "pncounter", "bigread", [p; nn; r] ->
+      (* read = P - N as a signed number: compared as P = N + read (or N = P + |read|) in N arithmetic *)
+      let ps = gc_read (vc_sx p) and ns = gc_read (vc_sx nn) in
+      (match r with
+       | A str when String.length str > 0 && str.[0] = '-' -> cmp (=) show_n ns (n_add ps (n_of_decimal (String.sub str 1 (String.length str - 1))))
+       | A str -> cmp (=) show_n ps (n_add ns (n_of_decimal str))
+       | _ -> bad "bigread")
   | "pncounter", _, _ ->
       let pn x = { pn_p = vc_sx (field "p" x); pn_n = vc_sx (field "n" x) } in
       let show p = Printf.sprintf "pn{%s %s}" (show_vc p.pn_p) (show_vc p.pn_n) in
